@@ -823,6 +823,9 @@ class SingleInstanceDataset(BaseDataset):
             use_existing_chunks=use_existing_chunks,
         )
         self.confmap_head_config = confmap_head_config
+        # a single-instance sample holds one instance: do not pad `instances` with NaN rows
+        # (same as `single_instance_data_chunks`).
+        self.max_instances = 1
         if not self.use_existing_chunks:
             rank = get_dist_rank()
             if (
